@@ -124,6 +124,24 @@ def gen_direct(rng, tier):
         for (f, m) in combos:
             for rule in RULES:
                 cases.append((ALLPHASES[:NPh], [[v] for v in m], list(f), rule, rng.choice([1, 2])))
+    # several elements whose ranking of the phases differs (phase 1 fastest for one element, phase 2 for another): every rule acts
+    # element by element, so each column must come out as if it were alone
+    for NPh in (2, 3):
+        fracs = [f for f in itertools.product(FRACS[1:], repeat=NPh) if sum(f) == 1]
+        for E in (2, 3):
+            for _ in range(25 if tier == "quick" else 250):
+                tab = [[rng.choice(MOBS) for _ in range(E)] for _ in range(NPh)]
+                tab[0][0], tab[1][0] = MOBS[-1], MOBS[0]          # element 1: phase 1 fastest, phase 2 slowest
+                tab[0][1], tab[1][1] = MOBS[0], MOBS[-1]          # element 2: the other way round
+                if rng.random() < 0.2:
+                    tab[rng.randrange(NPh)][rng.randrange(E)] = None
+                    if all(r[e] is None for e in range(E) for r in tab[:1]) or any(all(r[e] is None for r in tab) for e in range(E)):
+                        continue
+                f = rng.choice(fracs)
+                if any(sum(fi for fi, r in zip(f, tab) if r[e] is not None) == 0 for e in range(E)):
+                    continue
+                for rule in RULES:
+                    cases.append((ALLPHASES[:NPh], tab, list(f), rule, rng.choice([1, 2])))
     return cases
 
 
@@ -153,6 +171,18 @@ def gen_points(rng, tier):
         scen.append(dict(names=names, frac=list(fr), mob=mob, rule=rng.choice(list(RULES)), labn=rng.choice([1, 2]),
                          post={"mode": mode, "arg": arg}, cache=rng.random() < 0.7,
                          second=rng.choice(["same", "none", "majority"])))
+    # a phase that is stable as TWO composition sets at the point (miscibility gap): the equilibrium lists its name twice,
+    # and an option that names the phase means both sets
+    for i in range(12 if tier == "quick" else 120):
+        dup, other = rng.sample(ALLPHASES, 2)
+        names = rng.choice([[dup, dup, other], [dup, other, dup], [other, dup, dup]])
+        fr = rng.choice([(Fr(1, 4), Fr(1, 4), Fr(1, 2)), (Fr(1, 2), Fr(1, 4), Fr(1, 4)), (Fr(1, 4), Fr(1, 2), Fr(1, 4))])
+        per = {dup: rng.choice(MOBS), other: rng.choice(MOBS)}       # the scripted mobility is a function of the phase (by name)
+        mob = [[per[nme]] for nme in names]
+        mode = rng.choice(["exclude", "exclude", "none", "majority"])
+        arg = [dup] if mode == "exclude" else ""
+        scen.append(dict(names=names, frac=list(fr), mob=mob, rule=rng.choice(list(RULES)), labn=rng.choice([1, 2]),
+                         post={"mode": mode, "arg": arg}, cache=rng.random() < 0.7, second=rng.choice(["same", "none"])))
     return scen
 
 
